@@ -46,6 +46,11 @@ class Runner:
         self.prov = self.w.provider
         self.pm = self.prov.mdib
         self.pm_types = self.pm.data_model.pm_types
+        if not case.get('role_hooks', False):
+            # the tutorial role providers hook into every commit (e.g. the alarm provider touches the alert
+            # system state); the streams exercise the library's own semantics, so the hooks are detached
+            self.pm.pre_commit_handler = None
+            self.pm.post_commit_handler = None
         self.cons = None
         self.cm = None
         self.rec = None
@@ -153,10 +158,10 @@ class Runner:
                 if kind == 'add':
                     _, handle, parent, type_name, n, with_state = act
                     if op.get('iface') == 'entity':
-                        tpl = self.pm.entities.by_handle(self.template(type_name).Handle)
-                        ent = copy.deepcopy(tpl)
+                        ent = self.pm.entities.by_handle(self.template(type_name).Handle)   # private deep copies
                         ent.descriptor.Handle = handle
                         ent.descriptor.parent_handle = parent
+                        ent.descriptor.DescriptorVersion = 0
                         mdibrun.set_payload(ent.descriptor, n, self.pm_types)
                         if ent.is_multi_state:
                             ent.states.clear()
